@@ -27,20 +27,14 @@ from harness.common import hx, exc_name, VERIF
 PROPERTY = 'C12'
 LEAN_TARGETS = ['PxProofs.C12']
 THEOREMS = [
-    'Px.Reverse.C12_no_route_404',
-    'Px.Reverse.C12_selection',
-    'Px.Reverse.C12_target',
-    'Px.Reverse.C12_target_static',
-    'Px.Reverse.C12_default_ports',
-    'Px.Reverse.C12_forwarded_request',
-    'Px.Reverse.C12_host_rewrite',
-    'Px.Reverse.C12_headers_preserved',
-    'Px.Reverse.C12_relay',
-    'Px.Reverse.C12_relay_stops',
-    'Px.Reverse.C12_dynamic_literal',
-    'Px.Reverse.C12_dynamic_url',
-    'Px.Reverse.C12_no_match_no_connect',
-    'Px.Reverse.C12_close',
+    'Px.Reverse.C12_no_route_404', 'Px.Reverse.C12_404_packet',
+    'Px.Reverse.C12_selection', 'Px.Reverse.C12_hits_sound',
+    'Px.Reverse.C12_target', 'Px.Reverse.C12_target_static', 'Px.Reverse.C12_default_ports',
+    'Px.Reverse.C12_forwarded_request', 'Px.Reverse.C12_forwarded_path',
+    'Px.Reverse.C12_host_rewrite', 'Px.Reverse.C12_headers_preserved', 'Px.Reverse.C12_default_disable',
+    'Px.Reverse.C12_relay', 'Px.Reverse.C12_relay_segments', 'Px.Reverse.C12_relay_stops',
+    'Px.Reverse.C12_dynamic_literal', 'Px.Reverse.C12_dynamic_url',
+    'Px.Reverse.C12_refused', 'Px.Reverse.C12_close',
 ]
 RULE = ('route tables (1..3 plugins, 0..3 routes each: static with 1..3 upstream URLs http/https with/without '
         'port and path, dynamic returning Url or literal response or raising; edge URLs without scheme/host, bad '
@@ -741,7 +735,7 @@ def _small_scope(rng):
 
 def generate(rng, tier):
     big = tier == 'thorough'
-    n_main = 12000 if big else 1500
+    n_main = 40000 if big else 4000
     for _ in range(n_main):
         edge = 0.0 if rng.random() < 0.7 else 0.35
         plugins = _rtable(rng, edge)
@@ -751,7 +745,7 @@ def generate(rng, tier):
         yield _mk_case(rng, plugins, picks, target, rng.randrange(2), connect=connect,
                        ws=rng.random() < 0.05)
     # malformed / non-web requests: correspondence of the guard only
-    for _ in range(600 if big else 60):
+    for _ in range(1500 if big else 150):
         g = G.gen_request(rng, maxbody=40)
         raw = G.mutate(rng, g['raw']) if rng.random() < 0.5 else g['raw']
         yield _mk_case(rng, _rtable(rng, 0.0), [0, 0, 0], b'/', rng.randrange(2), raw=raw, cut=False)
